@@ -9,9 +9,9 @@ def sc(b,mdo): return [{"set":"b%d"%b,"file":"pwr/constants.go","ident":"BlockSi
   {"set":"b%d"%b,"file":"pwr/overlay/overlay_writer.go","ident":"overlaySameThreshold","value":"2"}]
 scale=sc(2,5)+sc(4,8)
 Q=["quick","thorough"];T=["thorough"]
-shapes=list(range(0,20)); swaps=[20,21,22,23,24,25,26,27,28,29,30,31]
+shapes=list(range(0,20))+[32,33]; swaps=[20,21,22,23,24,25,26,27,28,29,30,31]
 H=[{"name":"H_witness","tiers":Q,"expect":"violation","bounds":"vacuity witness"}]
-H.append({"name":"H_inplace","tiers":Q,"scale":"b2","bounds":"B=2; old build: files A (3), B (5), sub/C (2), dir, symlink; 20 path-level relations (unchanged, patched, renamed, swap, chains, rotation, 1->2 and 1->3 duplication with/without the original, patched+renamed, kept+duplicated onto a path whose old file is renamed away, grow/shrink/empty, dirs and symlinks added/removed/retargeted, all deleted); every iteration order of the commit phase's maps; generic-position contents",
+H.append({"name":"H_inplace","tiers":Q,"scale":"b2","bounds":"B=2; old build: files A (3), B (5), sub/C (2), dir, symlink; 22 path-level relations (unchanged, patched, renamed, swap, chains, rotation, 1->2 and 1->3 duplication with/without the original, patched+renamed, kept+duplicated onto a path whose old file is renamed away or dropped (longer old content), grow/shrink/empty, dirs and symlinks added/removed/retargeted, all deleted); every iteration order of the commit phase's maps; generic-position contents",
   "param_sets":[{"a":3,"b":5,"c":2,"shape":s,"orders":1} for s in shapes]})
 H.append({"name":"H_inplace","tiers":Q,"scale":"b2","bounds":"kind swaps (file->dir, empty dir->file, file renamed with a symlink left in its place, symlink->file, symlink-to-directory->real directory (3 variants), non-empty directory->file / ->symlink with its content deleted, moved elsewhere, or moved to the symlink target); every iteration order of the commit phase maps",
   "param_sets":[{"a":3,"b":5,"c":2,"shape":s,"orders":1} for s in swaps]})
